@@ -7,6 +7,9 @@ pub mod c02;
 pub mod c03;
 pub mod c04;
 pub mod c09;
+pub mod c10;
+pub mod c11;
+pub mod c12;
 pub mod c15;
 pub mod c16;
 pub mod c17;
